@@ -721,6 +721,95 @@ def run_heap(ctx):
            sample='"ok"')
 
 
+# Reservoir sampling
+def rs_consts():
+    return json.load(open(os.path.join(vlib.SPEC, "ReservoirAsBuilt.json")))
+
+
+def rs_dist_table(ctx, records, w, k):
+    """C05 verdict: TLC pushes exact weights through the table recorded from the real sampler."""
+    tab = os.path.join(w, "table.ndjson")
+    n = 0
+    with open(records) as f, open(tab, "w") as g:
+        for line in f:
+            if '"k":"hdr"' in line:
+                if n == 0:
+                    g.write(line)
+                continue
+            if '"alt"' in line or '"name":"add"' not in line or '"res":"ok"' not in line:
+                continue
+            r = json.loads(line)
+            g.write(json.dumps({"k": "row", "tid": r["tid"], "n_pre": r["n_pre"], "res_pre": r["res_pre"], "res_post": r["res_post"], "w": r["w"]}) + "\n")
+            n += 1
+    outp, rc, secs = vlib.tlc("P_ReservoirDist", vlib.PCFG, w, env={"TRACE": tab}, workers=1, timeout=1800, xmx="4g")
+    txt = open(outp, errors="replace").read()
+    m = re.search(r'<<"CHECKED", (\d+), (\d+)>>', txt)
+    if rc != 0 or not m or m.group(1) != m.group(2):
+        raise ToolError("P_ReservoirDist did not finish (rc=%d)\n%s" % (rc, txt[-3000:]))
+    rej = [(int(a), b) for a, b in re.findall(r'<<\s*"REJECT",\s*(\d+),\s*"([^"]*)"\s*>>', txt)]
+    det = re.findall(r'<<\s*"DETAIL".*?>>\s*>>|<<\s*"DETAIL"[^\n]*', txt, re.S)
+    log("[P] P_ReservoirDist pushed exact weights through %d recorded draws (k=%d, n <= %d): %d rejected (%.1fs)" % (n, k, 4 * k + 1, len(rej), secs))
+    for d in det[:3]:
+        log("    " + " ".join(d.split())[:400])
+    ctx.judged += n
+    for nn, clause in rej:
+        ctx.rejects.append({"tid": nn, "clause": clause, "records": tab, "s": "rs", "pspec": "P_ReservoirDist", "pconsts": {}, "hist": None,
+                            "scenarios": None, "kind": "rsdist", "extra": {"k": k, "n": nn}})
+    ctx.extra.setdefault("exact_distribution_tables", []).append({"k": k, "recorded_draws": n, "n_checked": "k..4k+1", "rejected": len(rej)})
+
+
+def rsdist_replay(ctx, rp):
+    ctx2 = Ctx(ctx.pid, ctx.tier, ctx.seed, ctx.sub("replay_run"))
+    k = rp["extra"]["k"]
+    rs_e2(ctx2, [k], dist=True)
+    mine = [r for r in ctx2.rejects if ctx.pid in vlib.clause_props(r["clause"])]
+    for r in mine:
+        log("replay: %s" % r["clause"])
+    if mine:
+        print("VIOLATION property=%s replay=%s" % (ctx.pid, rp.get("_path", "")), flush=True)
+        return 1
+    log("replay: exact distribution for k=%d is uniform up to n=4k+1" % k)
+    return 0
+
+
+SPECIAL_REPLAY["rsdist"] = rsdist_replay
+
+
+def rs_e1(ctx, ks, dist_ks):
+    asb = rs_consts()
+    for k in ks:
+        c = {"K": k, "NMax": 4 * k + 4, "GMax": 3, "EMIT": "FALSE"}
+        c.update(asb)
+        ctx.e1.append(vlib.model_check("MC_Reservoir", c, ["ValidInv"], ctx.sub("e1")))
+    for k in dist_ks:
+        c = {"K": k}
+        c.update(asb)
+        ctx.e1.append(vlib.model_check("MC_ReservoirDist", c, ["Inv"], ctx.sub("e1"), workers=1))
+
+
+def rs_e2(ctx, ks, dist):
+    asb = rs_consts()
+    for k in ks:
+        c = {"K": k, "NMax": 4 * k + 4, "GMax": 3, "EMIT": "TRUE"}
+        c.update(asb)
+        std_e2(ctx, "MC_Reservoir", c, "rs", "P_Reservoir", "rs_%d" % k, reps=1, max_alt=30, sample='"switch',
+               label={"structure": "ReservoirSampling", "k": k, "max_stream": 4 * k + 4})
+        if dist:
+            w = ctx.sub("rs_%d" % k)
+            rs_dist_table(ctx, os.path.join(w, "p.ndjson"), w, k)
+
+
+def run_rs(ctx, dist):
+    if ctx.quick:
+        rs_e1(ctx, [1, 2], [1, 2] if dist else [])
+        rs_e2(ctx, [1, 2], dist)
+        std_e3(ctx, "rs", "P_Reservoir", "rs_e3", drive_args=["--scenarios", "24", "--max-n", "3000"], sample='"gap"')
+    else:
+        rs_e1(ctx, [1, 2, 3], [1, 2] if dist else [])
+        rs_e2(ctx, [1, 2, 3] if not dist else [1, 2], dist)
+        std_e3(ctx, "rs", "P_Reservoir", "rs_e3", drive_args=["--scenarios", "300", "--max-n", "100000"], sample='"gap"')
+
+
 def handle_hang(ctx, stats, records, tag, pspec, hist=None):
     for h in stats.get("hang", []):
         ctx.rejects.append({"tid": h.get("tid", 0), "clause": PROPS[ctx.pid].get("hang_clause", ctx.pid + ".total: a call did not return (hang)"),
@@ -777,6 +866,16 @@ PROPS = {
                     "E2: every transition replayed in a debug build (keys found by search against the SipHash-fixed sketch, ordered like the model's elements); E3: k to 20, sketches 1x1 to 272x3; "
                     "non-trivial = tagged (newcomer displaces the minimum, newcomer rejected, first-seen element over-estimated by collisions, re-keying of a stored element)",
             "assumptions": ["TLC and the TLA+ P-spec P_CMSHeap judge every executed call", "E (largest sketch overestimate) is read from the embedded sketch through a read-only hook"]},
+    "C18": {"run": lambda ctx: run_rs(ctx, False), "level": "model_checking",
+            "rule": "E1: every outcome of every draw for k in 1..3 up to n = 4k+4 (gaps 0..3); E2: every transition replayed through a scripted RNG; "
+                    "E3: k in {1,2,3,10,64,100}, n to 10^5 with pseudo-random, all-zero, all-one and alternating raw RNG words; non-trivial = tagged (replaces / keeps / switch accepts / first gap skips / gap accepts / gap skips)",
+            "assumptions": ["TLC and the TLA+ P-spec P_Reservoir judge every executed call", "rand 0.8 sampling algorithms (self-tested at start-up) for scripted draws"]},
+    "C05": {"run": lambda ctx: run_rs(ctx, True), "level": "model_checking",
+            "level_text_extra": "exact for n <= 4k+1, k in {1,2}; gap phase bound by mechanism",
+            "rule": "exact inclusion probabilities by path counting: on the spec (MC_ReservoirDist) and on the table of draws recorded from the real sampler (P_ReservoirDist) for every n <= 4k+1, k in {1,2}: "
+                    "every plain-phase outcome j and every one of the 4k+1 equiprobable cells of the unit draw at the phase switch is executed; gap phase: scripted unit values on a dyadic grid, the next accepted index must be base + g with GapOK; "
+                    "non-trivial = tagged transitions",
+            "assumptions": ["uniformity of the RNG (rand's gen_range maps a uniform lattice of words to equiprobable outcomes; self-tested)", "the quantitative bias of gap sampling for n >> 4k is not decided (statement: 'of relative order 1/k')"]},
     "C12": {"run": lambda ctx: (run_ck(ctx), run_C13(ctx)), "level": "model_checking", "rule": CK_RULE + "; quotient filter as C13", "assumptions": CK_ASSUME},
     "C13": {"run": run_C13, "level": "model_checking",
             "rule": "E1: every reachable state of the quotient-filter M-spec for the listed (q,r); E2: every emitted transition executed "
@@ -792,3 +891,11 @@ NOT_APPLICABLE = {
     "C08": "a frequency over (hasher seed, element) pairs under real hashers; nothing to enumerate in a TLA+ model and the tiny models' exact collision counts do not "
            "transfer to w=272; the sketch's deterministic guarantees are decided under C02 (DESIGN.md section 6)",
 }
+
+
+def run_C05(ctx):
+    run_rs(ctx, True)
+
+
+def run_C18(ctx):
+    run_rs(ctx, False)
